@@ -248,6 +248,9 @@ func countRevStats(sc *RevScenario, obs *RevObs, st *Stats) (fired int) {
 				break
 			}
 			st.Behav["ocsp_signer_"+signerNames[c.Signer]]++
+			if c.Pad != 0 {
+				st.Probes["ocsp_response_size_"+[]string{"", "one_below_read_limit", "exactly_read_limit", "one_above_read_limit"}[c.Pad]]++
+			}
 			st.Behav["ocsp_status_"+[]string{"good", "revoked", "unknown"}[c.Status]]++
 			if c.SerialKind != SrWanted {
 				st.Behav["ocsp_serial_"+serialKindNames[c.SerialKind]]++
